@@ -28,6 +28,7 @@ structure Ent where
   owner : Option Nat          -- dxf.owner: handle of the owning BLOCK_RECORD (none = unlinked)
   indb : Bool                 -- still a key of EntityDB._database
   ref : Option Str            -- INSERT: referenced block name as given
+  psp : Bool := false         -- dxf.paperspace flag (set by set_owner from is_any_paperspace)
   deriving Repr, DecidableEq
 
 structure Lay where
@@ -75,6 +76,7 @@ inductive Op where
   | addLayer (name : Str) (seed : Nat)
   | delLayer (name : Str)
   | reload (seed : Nat)                          -- doc.write(); ezdxf.read()
+  | foreign (kind e : Nat)                       -- move / add_entity / copy_to_layout into ANOTHER document
   deriving Repr, DecidableEq
 
 /-! ### small list helpers -/
@@ -111,12 +113,15 @@ def validTableName (n : Str) : Bool := n.all (fun c => !invalidNameChars.contain
 
 /-! ### entity operations -/
 
+/-- `BlockRecord.is_any_paperspace`: the block record of a layout other than "Model" -/
+def isPaperBr (s : State) (k : Nat) : Bool := s.layouts.any (fun l => l.br == k && l.key != modelKey)
+
 def newEnt (s : State) (k h seed : Nat) (ref : Option Str) : State × Out :=
   match spaceOf s k with
   | none => (s, .err .other)
   | some _ =>
     if freshOk s [h] seed then
-      ({ s with ents := s.ents ++ [⟨h, true, some k, true, ref⟩],
+      ({ s with ents := s.ents ++ [⟨h, true, some k, true, ref, isPaperBr s k⟩],
                 spaces := setSpace s.spaces k (· ++ [h]), next := seed }, .ok)
     else (s, .err .notFresh)
 
@@ -128,7 +133,7 @@ def unlinkCore (s : State) (k e : Nat) : Option State :=
     | some sp =>
       if sp.contains e then
         some { s with spaces := setSpace s.spaces k (·.erase e),
-                      ents := setEnt s.ents e (fun x => { x with owner := none }) }
+                      ents := setEnt s.ents e (fun x => { x with owner := none, psp := false }) }
       else none
 
 /-- `BaseLayout.add_entity` for a bound entity -/
@@ -138,7 +143,7 @@ def addExisting (s : State) (k e : Nat) : State × Out :=
     if !x.alive then (s, .err .other)
     else if !x.indb then (s, .err .dxfStructureError)
     else ({ s with spaces := setSpace s.spaces k (· ++ [e]),
-                   ents := setEnt s.ents e (fun x => { x with owner := some k }) }, .ok)
+                   ents := setEnt s.ents e (fun x => { x with owner := some k, psp := isPaperBr s k }) }, .ok)
   | _, _ => (s, .err .other)
 
 def destroyEnt (s : State) (e : Nat) : State :=
@@ -297,6 +302,9 @@ def step (s : State) : Op → State × Out
                 layers := if s.layers.contains [48] then s.layers else s.layers ++ [[48]],
                 next := seed }, .ok)
     else (s, .err .notFresh)
+  | .foreign _ e =>
+    -- `entity.doc != layout.doc` / handle not in the other entity database: rejected, nothing changes
+    if isAlive s e then (s, .err .dxfStructureError) else (s, .err .other)
 
 /-! ### what `Drawing.write` exports (handles only): BLOCKS, ENTITIES, $HANDSEED -/
 
